@@ -1,8 +1,8 @@
 #!/bin/bash
-# usage: tools/runall.sh [tier] [seed]   - runs every check of MANIFEST.json, prints one line each
+# usage: [CHECKS="C01 C05"] tools/runall.sh [tier] [seed]   - runs every check of MANIFEST.json, prints one line each
 cd "$(dirname "$0")/.."
 tier=${1:-quick}; seed=${2:-0}
-for c in C01 C02 C03 C04 C05 C06 C07 C08 C09 C10 C11 C12 C13 C14 C15 C16 C17 C18 C19 C20; do
+for c in ${CHECKS:-C01 C02 C03 C04 C05 C06 C07 C08 C09 C10 C11 C12 C13 C14 C15 C16 C17 C18 C19 C20}; do
   start=$(date +%s)
   out=$(VERIF_SEED=$seed PYTHONHASHSEED=0 timeout 3600 /venv/bin/python run.py $c --tier $tier 2>&1)
   rc=$?
